@@ -96,6 +96,8 @@ func runC13(c *report.Ctx) {
 	checkNoServerTimeouts(c)
 	checkValidationCoversEveryEvent(c)
 	checkAgentMapsCleared(c)
+	checkOnlyOwnMiddleware(c)
+	checkFeatureNamesTrimmed(c)
 	checkErrorIdentity(c, scopeAgentHandlers, nil, 3)
 	c.Clause("1 automata")
 	for _, spec := range []fsmSpec{externalFSM(), internalFSM()} {
